@@ -379,6 +379,16 @@ func checkSeqRule(c *hc.Ctx, input string, os []obs) {
 	}
 }
 
+// holdsLine is the observation line for the Lean-side statement `holds`.
+func holdsLine(os []obs) string {
+	var b strings.Builder
+	b.WriteString("holds")
+	for _, o := range os {
+		fmt.Fprintf(&b, " %d/%d/%s", o.id, o.seq, b01(o.content))
+	}
+	return b.String()
+}
+
 func b01(b bool) string {
 	if b {
 		return "1"
@@ -403,7 +413,7 @@ func run(c *hc.Ctx) error {
 		}
 		c.Note("replay input is not a gen line; running the full tier instead")
 	}
-	var lines, impls []string
+	var lines, impls, holdsLines []string
 	add := func(line, impl string) {
 		lines = append(lines, line)
 		impls = append(impls, impl)
@@ -513,6 +523,7 @@ func run(c *hc.Ctx) error {
 		c.Eval(line, n >= 2)
 		c.Count("conn.sequential")
 		add(line, ib.String())
+		holdsLines = append(holdsLines, holdsLine(os))
 	}
 
 	// ---- 4. Conn.nextMsgSeq from 1..8 goroutines; the k-th critical section reads the k-th clock
@@ -572,6 +583,7 @@ func run(c *hc.Ctx) error {
 			c.Fail("conn-id-duplicate", line, "two concurrent nextMsgSeq calls returned the same id")
 		}
 		checkSeqRule(c, line, all)
+		holdsLines = append(holdsLines, holdsLine(all))
 		c.Eval(line, workers >= 2)
 		c.Count(fmt.Sprintf("conn.parallel.workers=%d", workers))
 		add(line, ib.String())
@@ -584,6 +596,18 @@ func run(c *hc.Ctx) error {
 	for i, o := range outs {
 		if c.Compare(lines[i], impls[i], o) {
 			c.Res.TracesValidated++
+		}
+	}
+	// the statement itself, as the decidable Lean function `holds` (theorem conn_holds), evaluated
+	// on what the implementation produced
+	hs, err := c.Drv.Batch(holdsLines)
+	if err != nil {
+		return err
+	}
+	for i, o := range hs {
+		c.Count("holds.evaluated-on-implementation")
+		if o != "true" {
+			c.Fail("holds-false", holdsLines[i], "TdModel.C08.holds is "+o+" on the (id, seq_no, content) triples returned by nextMsgSeq")
 		}
 	}
 	c.Res.Rule = "clock scripts (frozen, +1..4 ns, +0..13 ns, backward jumps, coarse ticks, second roll-over, pre-1970, mixed; 1..1000 calls; 25% with mixed message types) through MessageIDGen.New, ids compared one by one; non-trivial = some consecutive readings less than 4 ns apart or going backwards. Single NewMessageIDNano / MessageID.Time / Type values; nextMsgSeq sequences (non-trivial = at least 2 calls) and 1..8 concurrent callers (non-trivial = at least 2 workers) replayed in id order; distinct = distinct input line"
